@@ -68,7 +68,7 @@ _DEPTH = re.compile(r"depth of the complete state graph search is (\d+)")
 
 def run_tlc(module: str, cfg_text: str, workdir: str, *, workers=16, env=None, simulate=None,
             depth=None, seed=None, timeout=3600, extra=(), coverage=False, heap="8g",
-            keep_stdout=True, tag="tlc", allow_violation=False):
+            keep_stdout=True, tag="tlc", allow_violation=False, stack=None):
     """Run TLC on /verif/spec/<module>.tla with the given cfg.
 
     Returns dict(generated, distinct, depth, json, stdout_path, wall_s, violated, error_text).
@@ -83,7 +83,7 @@ def run_tlc(module: str, cfg_text: str, workdir: str, *, workers=16, env=None, s
     meta = os.path.join(workdir, f"{tag}.meta")
     shutil.rmtree(meta, ignore_errors=True)
     out_path = os.path.join(workdir, f"{tag}.out")
-    cmd = ["java", f"-Xmx{heap}", "-XX:+UseParallelGC", "-cp", JAR, "tlc2.TLC",
+    cmd = ["java", f"-Xmx{heap}"] + ([f"-Xss{stack}"] if stack else []) + ["-XX:+UseParallelGC", "-cp", JAR, "tlc2.TLC",
            "-workers", str(workers), "-metadir", meta, "-noGenerateSpecTE", "-config", cfg]
     if simulate:
         cmd += ["-simulate", simulate]
